@@ -16,6 +16,8 @@ what the market aggregated.  Oracle: the same identities on the solved series, e
 import common
 import gen_common as G
 import gen_checks as GC
+import gen_market
+import gen_asset
 
 PID = 'C04'
 FAMILY = 'Gen'
@@ -117,8 +119,20 @@ def run(ctx):
     out.assumptions = ['topologies covered per generated program, valuations/periods by the soundness theorem',
                        'a supplier whose own supply variable pre-exists with a constant (Household SUP_LAB = 0.) '
                        'keeps that constant as a summand: the identity is stated up to that constant 0']
+    # booking-group models with theorems for ALL zones (coq/GenMarket, coq/GenAsset), each with its own
+    # state correspondence and oracle
+    out.proof = common.merge_proofs([out.proof] + [common.proof_status(f, p) for f, p in gen_market.PROOFS + gen_asset.PROOFS])
+    gen_market.extra(ctx, out)
+    gen_asset.extra(ctx, out)
     return out
 
 
 def replay(path):
+    import json
+    obj = json.load(open(path))
+    kind = (obj.get('replay') or {}).get('kind')
+    if kind == 'market':
+        return gen_market.replay(obj)
+    if kind == 'asset':
+        return gen_asset.replay(obj)
     return GC.replay_program(path, make_targets, kmin=1)
